@@ -1506,6 +1506,8 @@ impl Read for ChannelReader {
                 self.pos += n;
                 return Ok(n);
             }
+            #[cfg(repe_verif)]
+            crate::verif_seam::block_until(|| !self.rx.is_empty() || self.rx.is_closed());
             match self.rx.blocking_recv() {
                 Some(chunk) => {
                     self.buf = chunk;
@@ -1597,6 +1599,10 @@ where
     V: Send + 'static,
     F: FnOnce(Box<dyn Read>) -> Result<V, RepeError> + Send + 'static,
 {
+    // Verification build: the decoder runs on a simulated thread instead of
+    // tokio's blocking pool.
+    #[cfg(repe_verif)]
+    use crate::verif_seam::tokio_shim as tokio;
     let (tx, rx) = tokio::sync::mpsc::channel::<Vec<u8>>(ASYNC_PULL_DEPTH);
     let compression = open.compression;
     // Starts immediately on a blocking thread; runs concurrently with the pull
